@@ -41,6 +41,7 @@ fn element_menu(full: bool) -> Vec<Item> {
     v.push(Item::El(Op::RemoveKeepContent));
     v.push(Item::El(Op::SetAttr("k".into(), "w\"w".into())));
     v.push(Item::El(Op::SetAttr("n".into(), "1".into())));
+    v.push(Item::El(Op::SetAttr("k".into(), "plain".into())));
     v.push(Item::El(Op::RemoveAttr("ID".into())));
     v.push(Item::El(Op::SetTagName("z".into())));
     v.push(Item::El(Op::StBefore("S".into(), true)));
@@ -63,7 +64,10 @@ fn ambiguous(a: &Item, b: &Item) -> bool {
     let inner_start = |i: &Item| matches!(i, Item::El(Op::Prepend(..) | Op::SetInner(..) | Op::After(..)));
     let replace_replace = matches!((a, b), (Item::El(Op::Replace(..)), Item::El(Op::Replace(..))));
     let end_edit = |i: &Item| matches!(i, Item::End(_));
-    let end_side = |i: &Item| matches!(i, Item::El(Op::After(..) | Op::Append(..) | Op::Remove | Op::RemoveKeepContent | Op::Replace(..) | Op::SetInner(..) | Op::SetTagName(..)));
+    // explicit end-tag edits compose with element-level *insertions* in the natural order (inner
+    // content, then "before the end tag"; "after the end tag", then "after the element"); together
+    // with calls that remove the end tag or the content the meaning is not documented
+    let end_side = |i: &Item| matches!(i, Item::El(Op::Remove | Op::RemoveKeepContent | Op::Replace(..) | Op::SetInner(..)));
     (removal(a) && removal(b) && !replace_replace)
         || (st_after(a) && inner_start(b) && false)
         || (st_after(b) && inner_start(a) && false)
@@ -101,6 +105,8 @@ struct ElState {
     st_after: Vec<(String, bool)>,
     attr_edits: Vec<Op>,
     any_end_side: bool,
+    /// the element carries an end-tag mutation record of its own (as-implemented model only)
+    end_mut: bool,
 }
 
 fn apply(st: &mut ElState, item: &Item, void: bool) {
@@ -111,12 +117,14 @@ fn apply(st: &mut ElState, item: &Item, void: bool) {
                 st.after.insert(0, (s.clone(), *h));
                 if !void {
                     st.any_end_side = true;
+                    st.end_mut = true;
                 }
             }
             Op::Prepend(s, h) if !void => st.start_list.insert(0, (s.clone(), *h)),
             Op::Append(s, h) if !void => {
                 st.end_list.push((s.clone(), *h));
                 st.any_end_side = true;
+                st.end_mut = true;
             }
             Op::SetInner(s, h) if !void => {
                 st.content_removed = true;
@@ -132,6 +140,7 @@ fn apply(st: &mut ElState, item: &Item, void: bool) {
                     st.end_list.clear();
                     st.end_removed = true;
                     st.any_end_side = true;
+                    st.end_mut = true;
                 }
             }
             Op::Remove => {
@@ -142,6 +151,7 @@ fn apply(st: &mut ElState, item: &Item, void: bool) {
                     st.end_list.clear();
                     st.end_removed = true;
                     st.any_end_side = true;
+                    st.end_mut = true;
                 }
             }
             Op::RemoveKeepContent => {
@@ -149,6 +159,7 @@ fn apply(st: &mut ElState, item: &Item, void: bool) {
                 if !void {
                     st.end_removed = true;
                     st.any_end_side = true;
+                    st.end_mut = true;
                 }
             }
             Op::SetAttr(..) | Op::RemoveAttr(..) => st.attr_edits.push(op.clone()),
@@ -436,7 +447,7 @@ fn r_edit(evs: &[DEv], r: &Rendered, tree: &Tree, plan: &Plan, enc: &'static enc
                         let mut name: Option<String> = None;
                         for &ni in &closed[emit_from..] {
                             let st = &states[ni];
-                            if st.any_end_side {
+                            if st.end_mut {
                                 before = st.end_list.clone();
                                 after = st.after.clone();
                                 removed = st.end_removed;
